@@ -175,7 +175,7 @@ def run(tier, rng, C):
     threads = 8 if tier == "quick" else 16
     procs = 4 if tier == "quick" else 16
     sizes = {}
-    for kind, nbytes in (("csrf", 16), ("pkce", 32)):
+    for kind, nbytes in (("csrf", 16), ("pkce", 32), ("pkceplain", 32)):
         seq = C.run_impl(["RANDBULK %s %d 1" % (kind, total // 4)])[0].split(",")
         thr = C.run_impl(["RANDBULK %s %d %d" % (kind, total // 4, threads)])[0].split(",")
         per_proc = [C.run_impl(["RANDBULK %s %d 1" % (kind, total // (4 * procs))])[0].split(",") for _ in range(procs)]
